@@ -1,6 +1,7 @@
 import ElaVerif.Model.Reward
 import ElaVerif.Lemmas.Reward
 import ElaVerif.Lemmas.FloatModel
+import ElaVerif.Lemmas.ConsensusMode
 import ElaVerif.Gen.C11
 /-!
 # C11 — issuance follows the schedule
@@ -214,6 +215,46 @@ theorem C11_coinbase_total_exact_std (fl : ℚ → ℚ) (h : StdModel fl) (powMo
     unfold dpStd; rw [Fixed64.toInt_ofInt]; exact bmod_exact _ (by omega) (by omega)
   exact C11_coinbase_total_exact (crStd fl) (dpStd fl) powMode fees reward outs hok
     (by rw [e30]; omega) (by rw [e35]; omega) (by rw [e30, e35]; omega)
+
+/-! ### where the POW-mode flag of the coinbase rule comes from (compared with a real dpos State
+    that connects and rolls back blocks, stream `rvt`) -/
+
+open ElaVerif.ConsensusMode in
+/-- **A reorganisation restores the consensus mode**: disconnecting the blocks connected since some
+    point puts the mode (and with it the addresses the coinbase rule requires) back to what it was at
+    that point — in particular a disconnected RevertToPOW block leaves the chain in DPoS consensus. -/
+theorem C11_mode_restored_by_rollback (s : St) (bs : List Blk) (hv : Valid s bs) :
+    rollback bs.length (connectAll s bs) = s :=
+  rollback_connectAll s bs hv
+
+open ElaVerif.ConsensusMode in
+/-- the mode is POW exactly when a RevertToPOW block is among the connected blocks (starting in
+    DPoS consensus with nothing connected, valid histories) -/
+theorem C11_mode_is_pow_iff (bs : List Blk) (hv : Valid ⟨false, []⟩ bs) :
+    (connectAll ⟨false, []⟩ bs).pow = true ↔ Blk.revertToPow ∈ bs := by
+  suffices h : ∀ (s : St), Valid s bs → ((connectAll s bs).pow = true ↔ (s.pow = true ∨ Blk.revertToPow ∈ bs)) by
+    have := h ⟨false, []⟩ hv
+    simpa using this
+  clear hv
+  intro s
+  induction bs generalizing s with
+  | nil => intro _; simp [connectAll]
+  | cons b bs ih =>
+    intro hv
+    cases b with
+    | plain =>
+      have := ih (connect s .plain) hv
+      simp only [connectAll]
+      rw [this]
+      simp [connect]
+    | revertToPow =>
+      have := ih (connect s .revertToPow) hv.2
+      simp only [connectAll]
+      rw [this]
+      simp [connect]
+
+example : ElaVerif.ConsensusMode.rollback 1 (ElaVerif.ConsensusMode.connectAll ⟨false, []⟩ [.plain, .revertToPow]) =
+    ⟨false, [.plain]⟩ := by decide
 
 /-! ### the block-level wrapper (checkTxsContext; compared with the real function by the `blk` stream) -/
 
